@@ -149,12 +149,9 @@ def find (w : World) (p : Nat) (name : NameKey) : FindRes := findFunction w w.fu
 
 /-! ### visibility -/
 
-/-- function_visible (origin, func_flags) -/
-def functionVisible (origin flags : Nat) : Bool :=
-  if origin == originLocal || origin == originDriver || origin == originCallOut then true
-  else if origin == originCallOther then
-    !(hasBit flags (nameStatic ||| namePrivate ||| nameProtected))
-  else true
+/-- function_visible (origin, func_flags): the decision itself is REGENERATED from the clang AST of the C function
+    on every run (`NV.Gen.C07.functionVisibleGen`); the theorems below are stated over it -/
+def functionVisible (origin flags : Nat) : Bool := functionVisibleGen origin flags
 
 /-! ### the apply cache and apply_low -/
 
